@@ -88,7 +88,7 @@ var dynKinds = []string{"nil", "bool", "string", "int", "int8", "int64", "uint8"
 // dynamic pool types (fold side): implemented folders — incl. named containers
 // of builtin elements, which the library also knows a conversion fast path for —
 // the registered folder and plain named containers
-var dynPool = []string{"FolderObj", "FolderPtr", "FolderScalar", "RegT", "FTags", "FCounts", "FAnyMap", "FAnyList", "NMapInt", "NMapAny", "NSliceStr", "NSliceAny", "NBytes", "ZeroVal", "NArr3", "NArrStr", "NSliceN", "NMapN", "NUint64", "NInt16", "FLevel", "FFlag", "RDur", "FDeleg"}
+var dynPool = []string{"FolderObj", "FolderPtr", "FolderScalar", "RegT", "RegPS", "FTags", "FCounts", "FAnyMap", "FAnyList", "NMapInt", "NMapAny", "NSliceStr", "NSliceAny", "NBytes", "ZeroVal", "NArr3", "NArrStr", "NSliceN", "NMapN", "NUint64", "NInt16", "FLevel", "FFlag", "RDur", "FDeleg"}
 
 // dynamic types that fold to an object (what an inlined interface must hold)
 var dynObjKinds = []string{"map_iface", "map_string", "struct", "map_scalar", "gen_struct", "gen_struct", "inl_struct", "inl_struct", "pool:FolderObj", "pool:FCounts", "pool:NMapAny", "ptr_struct", "pool:FDeleg", "pool:FDeleg"}
